@@ -352,11 +352,14 @@ class APCI(ABC):
             if service == APCIService.DEVICE_DESCRIPTOR_RESPONSE.value:
                 return DeviceDescriptorResponse.from_knx(raw)
             if service == APCIService.RESTART.value:
-                if apci == APCIService.RESTART_MASTER_RESET.value:
+                # 4 reserved bits between the response flag and the restart type
+                restart_apci = apci & ~0b0000011110
+                if restart_apci == APCIService.RESTART.value:
+                    return Restart.from_knx(raw)
+                if restart_apci == APCIService.RESTART_MASTER_RESET.value:
                     return RestartMasterReset.from_knx(raw)
-                if apci == APCIService.RESTART_MASTER_RESET_RESPONSE.value:
+                if restart_apci == APCIService.RESTART_MASTER_RESET_RESPONSE.value:
                     return RestartMasterResetResponse.from_knx(raw)
-                return Restart.from_knx(raw)
             if service == APCIService.ESCAPE.value:
                 if apci == APCIExtendedService.FILTER_TABLE_OPEN.value:
                     return FilterTableOpen.from_knx(raw)
